@@ -5,17 +5,12 @@ import CwMt.Driver.Util
 namespace CwMt.Driver.Stk
 open CwMt CwMt.Driver CwMt.Staking
 
-/-- `frac`: the sub-second part of the App's block time in nanoseconds (the default block starts at
-1571797419.879305533). The staking model counts whole seconds of block time — `calculate_rewards` takes
-`floor(now) - floor(since)` — so an `advance` with nanoseconds moves the model's clock by the number of whole-second
-boundaries crossed; the generator keeps clear of the one case in which the unbonding queue (which compares
-nanoseconds) and whole seconds disagree. -/
+/-- the model's clock is the App's block time in nanoseconds; the default block starts at 1571797419.879305533 -/
 structure StkState where
   c : Chain
   dead : Bool
-  frac : Nat := 879305533
 
-def StkState.init : StkState := ⟨⟨SState.init, [], 0, 0⟩, false, 879305533⟩
+def StkState.init : StkState := ⟨⟨SState.init, [], 1571797419879305533, 0⟩, false⟩
 
 def stkCfg : Cfg := { pool := "pool", valid := fun a => a ≠ "bad" ∧ a ≠ "pool" }
 
@@ -110,18 +105,15 @@ def stepStaking' (st : StkState) (toks : List String) : StkState × String :=
     | none => (st, "bad-op")
   | ["advance", n] =>
     match n.toNat? with
-    | some n => runOp st (.advance n)
+    | some n => runOp st (.advance (n * NS))
     | none => (st, "bad-op")
   | ["advance", n, _mode] =>
     match n.toNat? with
-    | some n => runOp st (.advance n)
+    | some n => runOp st (.advance (n * NS))
     | none => (st, "bad-op")
   | ["advance", n, _mode, ns] =>
     match n.toNat?, ns.toNat? with
-    | some n, some ns =>
-      if ns ≥ 1000000000 then (st, "bad-op") else
-      let f := st.frac + ns
-      runOp { st with frac := f % 1000000000 } (.advance (n + f / 1000000000))
+    | some n, some ns => if ns ≥ NS then (st, "bad-op") else runOp st (.advance (n * NS + ns))
     | _, _ => (st, "bad-op")
   | ["q-deleg", a, v] => (st, fmtDeleg (queryDelegation stkCfg c a v))
   | ["q-all", a] =>
